@@ -27,7 +27,8 @@ DefaultSkip == 80
 Tc(id, beh, code, dur, exp, out, stream, expect, t, det, skip) ==
     [id |-> id, beh |-> beh, code |-> code, dur |-> dur, exp |-> exp, out |-> out, stream |-> stream,
      expect |-> expect, t |-> t, det |-> det, skip |-> skip,
-     wait |-> 0]      \* `wait`: ticks scrut sleeps before it starts the command (not subject to any limit)
+     wait |-> 0,      \* `wait`: ticks scrut sleeps before it starts the command (not subject to any limit)
+     sinline |-> TRUE]  \* the stream is written in the test case's own configuration (FALSE: it comes from the document, see sdef)
 
 \* a document
 \*  fmt   : "md" | "cram"
@@ -38,7 +39,8 @@ Tc(id, beh, code, dur, exp, out, stream, expect, t, det, skip) ==
 \*  tdef  : defaults.timeout in the front-matter: the per-test timeout of every test case that does not set its own
 \*          (None = absent; only used in Markdown documents run by the per-process executor)
 Doc(fmt, tfm, skipdef, fault, tests) ==
-    [fmt |-> fmt, tfm |-> tfm, skipdef |-> skipdef, fault |-> fault, tests |-> tests, tdef |-> None]
+    [fmt |-> fmt, tfm |-> tfm, skipdef |-> skipdef, fault |-> fault, tests |-> tests, tdef |-> None, sdef |-> "unset"]
+
 \* effective per-test timeout: inline beats the document default
 OwnT(s, i, tc) == IF tc.t # None THEN tc.t ELSE s.docs[i].tdef
 
@@ -56,6 +58,12 @@ Run(docs, tcli, pre, app, via, noshell) ==
 \*  compat : --cram-compat is given: Markdown documents are executed like Cram documents (one script per document, Cram
 \*           format defaults); their syntax (front-matter, inline configuration) stays Markdown
 Script(s, i) == s.docs[i].fmt = "cram" \/ s.compat
+\*  sdef  : defaults.output_stream in the front-matter ("unset" = absent).  `stream` of a test case is always the stream IN
+\*          EFFECT (the ground truth its expectations are built from); where it comes from is a matter of how the document is
+\*          written: inline beats the document default beats the format default -- StreamWF states the consistency
+DefaultStream(s, i) == IF s.docs[i].sdef # "unset" THEN s.docs[i].sdef ELSE IF Script(s, i) THEN "combined" ELSE "stdout"
+StreamWF(s) == \A i \in 1..Len(s.docs) : \A x \in 1..Len(s.docs[i].tests) :
+                  ~s.docs[i].tests[x].sinline => s.docs[i].tests[x].stream = DefaultStream(s, i)
 
 FaultKinds == {"unreadable", "unparsable", "missing"}      \* scrut cannot do its job: exit status 1, nothing runs
 HasShared(s, i) == s.via = "cli" \/ (i = 1 /\ s.docs[1].fmt = "md")   \* front-matter exists only in Markdown
